@@ -93,14 +93,42 @@ const (
 	RelPInf        = "P=O"
 	RelBothInf     = "P=Q=O"
 	RelLambda      = "Q=lambda*P"
+	RelCollinear   = "Q on a small-slope line through P"
 )
+
+// Collinear returns another curve point on the line of slope m through p
+// (so P != Q but m*x - y agrees: m = -1 gives x1+y1 = x2+y2, m = 1 gives
+// x1-y1 = x2-y2), if the line meets the curve in further rational points.
+// It is the hostile input for comparisons that fold the coordinate checks
+// into one linear functional.
+func Collinear(p ref.Pt, m *big.Int) (ref.Pt, bool) {
+	if p.Inf || p.X.Sign() == 0 {
+		return ref.Pt{}, false
+	}
+	// x^3 + 7 = (m(x-x1)+y1)^2 has roots x1, x2, x3 with x2+x3 = m^2-x1 and x1*x2*x3 = c^2-7, c = y1-m*x1.
+	c := ref.SubM(p.Y, ref.MulM(m, p.X, ref.P), ref.P)
+	sum := ref.SubM(ref.MulM(m, m, ref.P), p.X, ref.P)
+	prod := ref.MulM(ref.SubM(ref.MulM(c, c, ref.P), big.NewInt(7), ref.P), ref.Inv0(p.X, ref.P), ref.P)
+	disc := ref.SubM(ref.MulM(sum, sum, ref.P), ref.MulM(big.NewInt(4), prod, ref.P), ref.P)
+	r, ok := ref.SqrtP(disc)
+	if !ok {
+		return ref.Pt{}, false
+	}
+	x2 := ref.MulM(ref.AddM(sum, r, ref.P), ref.Inv0(big.NewInt(2), ref.P), ref.P)
+	y2 := ref.AddM(ref.MulM(m, ref.SubM(x2, p.X, ref.P), ref.P), p.Y, ref.P)
+	q := ref.Pt{X: x2, Y: y2}
+	if !q.Valid() || q.Eq(p) {
+		return ref.Pt{}, false
+	}
+	return q, true
+}
 
 // PointPair draws (P, Q) and the relation used to build Q.
 func PointPair(t *rapid.T, label string) (p, q ref.Pt, rel string) {
 	pc := Point(t, label+"_P")
 	p = pc.P
 	rel = rapid.SampledFrom([]string{RelIndependent, RelIndependent, RelEqual, RelNeg, RelDouble, RelPlusG, RelMinusG,
-		RelQInf, RelPInf, RelBothInf, RelLambda}).Draw(t, label+"_rel")
+		RelQInf, RelPInf, RelBothInf, RelLambda, RelCollinear}).Draw(t, label+"_rel")
 	switch rel {
 	case RelEqual:
 		q = p
@@ -123,6 +151,18 @@ func PointPair(t *rapid.T, label string) (p, q ref.Pt, rel string) {
 			q = p
 		} else {
 			q = ref.Pt{X: ref.MulM(p.X, ref.Beta, ref.P), Y: new(big.Int).Set(p.Y)}
+		}
+	case RelCollinear:
+		slopes := []int64{-1, 1, 2, -2, 3, -3, 5, 7, 11, 13}
+		start := rapid.IntRange(0, len(slopes)-1).Draw(t, label+"_slope")
+		found := false
+		for i := 0; i < len(slopes) && !found; i++ {
+			m := ref.Mod(big.NewInt(slopes[(start+i)%len(slopes)]), ref.P)
+			q, found = Collinear(p, m)
+		}
+		if !found {
+			rel = RelIndependent
+			q = Point(t, label+"_Q").P
 		}
 	default:
 		q = Point(t, label+"_Q").P
